@@ -67,6 +67,10 @@ type Writer struct {
 	// written after that could never be found by a reader.
 	closed bool
 
+	// err is the first error which left an incomplete object in the output;
+	// see [Writer.fail].
+	err error
+
 	outputOptions OutputOptions
 
 	// documentMetadata captures the *MetadataStream pointer supplied
@@ -313,10 +317,13 @@ func NewWriter(w io.Writer, v Version, opt *WriterOptions) (*Writer, error) {
 }
 
 // Close closes the Writer, flushing any unwritten data to the underlying
-// io.Writer.
+// io.Writer.  If an earlier call failed after part of an object was written,
+// Close returns that error; the output is incomplete and must be discarded.
 func (w *Writer) Close() (err error) {
 	if w.closed {
 		return errWriterClosed
+	} else if w.err != nil {
+		return w.err
 	}
 	if w.inStream {
 		return errors.New("Close() while stream is open")
@@ -537,9 +544,11 @@ func (w *Writer) scannerFrom(pos int64, canObjStm bool) (*scanner, error) {
 }
 
 // Put writes an indirect object to the PDF file, using the given reference.
-func (w *Writer) Put(ref Reference, obj Object) error {
+func (w *Writer) Put(ref Reference, obj Object) (err error) {
 	if w.closed {
 		return errWriterClosed
+	} else if w.err != nil {
+		return w.err
 	}
 	if w.inStream {
 		w.afterStream = append(w.afterStream, allocatedObject{ref, obj})
@@ -553,19 +562,21 @@ func (w *Writer) Put(ref Reference, obj Object) error {
 		}
 		_, err = io.Copy(ws, stm.NewReader())
 		if err != nil {
-			return err
+			return w.fail(err)
 		}
 		err = ws.Close()
 		if err != nil {
 			return err
 		}
 	} else {
-		err := w.setXRef(ref, &xRefEntry{Pos: w.w.pos, Generation: ref.Generation()})
+		err = w.setXRef(ref, &xRefEntry{Pos: w.w.pos, Generation: ref.Generation()})
 		if err != nil {
 			return fmt.Errorf("Writer.Put: %w", err)
 		}
 		w.w.ref = ref
 
+		// from here on, an error leaves an incomplete object in the file
+		defer func() { w.fail(err) }()
 		_, err = fmt.Fprintf(w.w, "%d %d obj\n", ref.Number(), ref.Generation())
 		if err != nil {
 			return err
@@ -596,14 +607,16 @@ func (w *Writer) Put(ref Reference, obj Object) error {
 // Object streams are only available for PDF version 1.5 and newer; in case
 // object streams are not available, the objects are written directly into the
 // PDF file, without compression.
-func (w *Writer) WriteCompressed(refs []Reference, objects ...Object) error {
+func (w *Writer) WriteCompressed(refs []Reference, objects ...Object) (err error) {
 	if w.closed {
 		return errWriterClosed
+	} else if w.err != nil {
+		return w.err
 	}
 	if w.inStream {
 		return errors.New("WriteCompressed() while stream is open")
 	}
-	err := checkCompressed(refs, objects)
+	err = checkCompressed(refs, objects)
 	if err != nil {
 		return err
 	}
@@ -633,6 +646,7 @@ func (w *Writer) WriteCompressed(refs []Reference, objects ...Object) error {
 	}
 
 	sRef := w.Alloc()
+	defer func() { w.fail(err) }()
 	for i, ref := range refs {
 		err := w.setXRef(ref, &xRefEntry{InStream: sRef, Pos: int64(i)})
 		if err != nil {
@@ -703,6 +717,17 @@ func (w *Writer) WriteCompressed(refs []Reference, objects ...Object) error {
 
 var errWriterClosed = errors.New("pdf.Writer is closed")
 
+// fail records an error which occurred after part of an object was written
+// or registered, so that the output cannot be repaired.  The first such error
+// is kept; Put, OpenStream, WriteCompressed and Close return it from then on.
+// The method returns err unchanged.
+func (w *Writer) fail(err error) error {
+	if err != nil && w.err == nil {
+		w.err = fmt.Errorf("pdf.Writer: output is incomplete after an earlier error: %w", err)
+	}
+	return err
+}
+
 // errAllocOverflow is the panic value of [Writer.Alloc].  [Writer.Close]
 // returns it as an error.
 var errAllocOverflow = errors.New("pdf.Writer: object-number overflow")
@@ -747,6 +772,8 @@ func checkCompressed(refs []Reference, objects []Object) error {
 func (w *Writer) OpenStream(ref Reference, dict Dict, filters ...Filter) (io.WriteCloser, error) {
 	if w.closed {
 		return nil, errWriterClosed
+	} else if w.err != nil {
+		return nil, w.err
 	}
 	if w.inStream {
 		return nil, errors.New("OpenStream() while stream is open")
@@ -824,12 +851,6 @@ func (w *Writer) OpenStream(ref Reference, dict Dict, filters ...Filter) (io.Wri
 			numFilters, maxFilterChainLength)
 	}
 
-	err = w.setXRef(ref, &xRefEntry{Pos: w.w.pos, Generation: ref.Generation()})
-	if err != nil {
-		return nil, fmt.Errorf("Writer.OpenStream: %w", err)
-	}
-	w.w.ref = ref
-
 	// A caller-supplied /Length must be a value we can check against the data
 	// once it has been written.  A [Placeholder] is rejected along with every
 	// other type: the writer installs its own below, and one supplied here
@@ -906,6 +927,14 @@ func (w *Writer) OpenStream(ref Reference, dict Dict, filters ...Filter) (io.Wri
 		}
 	}
 
+	// The object is registered last, so that a call refused above leaves the
+	// Writer as it was.
+	err = w.setXRef(ref, &xRefEntry{Pos: w.w.pos, Generation: ref.Generation()})
+	if err != nil {
+		return nil, fmt.Errorf("Writer.OpenStream: %w", err)
+	}
+	w.w.ref = ref
+
 	w.inStream = true
 	return streamBody, nil
 }
@@ -954,11 +983,12 @@ func (w *streamWriter) Write(p []byte) (int, error) {
 
 		err := w.startWriting()
 		if err != nil {
-			return 0, err
+			return 0, w.parent.fail(err)
 		}
 	}
 
-	return w.parent.w.Write(p)
+	n, err := w.parent.w.Write(p)
+	return n, w.parent.fail(err)
 }
 
 func (w *streamWriter) startWriting() error {
@@ -985,7 +1015,8 @@ func (w *streamWriter) startWriting() error {
 	return nil
 }
 
-func (w *streamWriter) Close() error {
+func (w *streamWriter) Close() (err error) {
+	defer func() { w.parent.fail(err) }()
 	var length Integer
 	if w.started {
 		length = Integer(w.parent.w.pos - w.startPos)
@@ -1010,7 +1041,7 @@ func (w *streamWriter) Close() error {
 			l, length)
 	}
 
-	_, err := w.Write([]byte("\nendstream\nendobj\n"))
+	_, err = w.Write([]byte("\nendstream\nendobj\n"))
 	if err != nil {
 		return err
 	}
